@@ -8,6 +8,7 @@ Results go into the evidence (coverage.selfcheck); they never change the verdict
 """
 from __future__ import annotations
 
+from .props.common import run_property
 import ast
 import copy
 import importlib
@@ -457,7 +458,7 @@ def _run(program: Program, prop: str):
     mod = importlib.import_module(f"sa.props.{prop.lower()}")
     ctx = Ctx(program, prop, "quick")
     try:
-        mod.check(ctx)
+        run_property(ctx)
         ctx.finish()
     except AnalysisError as e:
         return ctx, str(e)
